@@ -402,7 +402,7 @@ impl GRLParser {
     }
 
     fn parse_single_rule(&mut self, grl_text: &str) -> Result<Rule> {
-        let cleaned = self.clean_text(grl_text);
+        let cleaned = self.clean_text(&Self::strip_comments(grl_text));
 
         // Extract rule components using cached regex
         let captures =
@@ -481,6 +481,10 @@ impl GRLParser {
         // Split by rule boundaries - support both quoted and unquoted rule names
         // Use DOTALL flag to match newlines in rule body
         let mut rules = Vec::new();
+
+        // Comments are removed first so that their content can never look like a rule boundary
+        let grl_text = Self::strip_comments(grl_text);
+        let grl_text = grl_text.as_str();
 
         for rule_match in rule_split_regex().find_iter(grl_text) {
             let rule_text = rule_match.as_str();
@@ -630,6 +634,47 @@ impl GRLParser {
         }
 
         Ok(0) // Default salience
+    }
+
+    /// Remove `// ...` line comments and `/* ... */` block comments.
+    /// Comment markers inside string literals ('...' or "...", which never span lines) are kept.
+    fn strip_comments(text: &str) -> String {
+        let mut out = String::with_capacity(text.len());
+        let mut chars = text.chars().peekable();
+        let mut quote: Option<char> = None;
+        while let Some(ch) = chars.next() {
+            if let Some(q) = quote {
+                if ch == q || ch == '\n' {
+                    quote = None;
+                }
+                out.push(ch);
+            } else if ch == '"' || ch == '\'' {
+                quote = Some(ch);
+                out.push(ch);
+            } else if ch == '/' && chars.peek() == Some(&'/') {
+                // line comment: skip to the end of the line (the line break is kept)
+                while let Some(&c) = chars.peek() {
+                    if c == '\n' {
+                        break;
+                    }
+                    chars.next();
+                }
+            } else if ch == '/' && chars.peek() == Some(&'*') {
+                // block comment: skip to the closing marker and leave a separator
+                chars.next();
+                let mut prev = ' ';
+                for c in chars.by_ref() {
+                    if prev == '*' && c == '/' {
+                        break;
+                    }
+                    prev = c;
+                }
+                out.push(' ');
+            } else {
+                out.push(ch);
+            }
+        }
+        out
     }
 
     fn clean_text(&self, text: &str) -> String {
